@@ -571,7 +571,12 @@ func (x *wfExec) settle() {
 		if n == 0 {
 			return
 		}
-		time.Sleep(time.Second)
+		// 1 ms, 2 ms, ... capped at 1 s: free in a bubble (virtual time), short outside of one
+		d := time.Millisecond << min(i, 10)
+		if d > time.Second {
+			d = time.Second
+		}
+		time.Sleep(d)
 	}
 }
 
